@@ -34,7 +34,7 @@ CASE_TIMEOUT = 200
 
 def gen_cases(seed, tier):
     rng = np.random.default_rng([seed, 10])
-    n = 500 if tier == "quick" else 5000
+    n = 500 if tier == "quick" else 15000
     cases = []
     for i in range(n):
         wk = str(rng.choice(["prim", "prim", "prim", "flagged", "product", "moved", "setvol", "density_bool", "history", "polyhole", "sliver"]))
